@@ -1,0 +1,68 @@
+//go:build verif
+
+package hermes
+
+// Exported wrappers for the verification harness (property C15: soil hydraulic parameters).
+// Only wrappers around unexported functions / fields; nothing here is used by the simulator.
+
+// VerifCalcWRed calls calcWRed with the given arguments on a state whose top-horizon texture is
+// `topTexture` and returns the threshold it stores in g.WRED.
+func VerifCalcWRed(wiltingPoint, fieldCapacity float64, topTexture string) float64 {
+	g := NewGlobalVarsMain()
+	g.BART[0] = topTexture
+	calcWRed(wiltingPoint, fieldCapacity, &g)
+	return g.WRED
+}
+
+// VerifSetFieldCapacityWithGW calls setFieldCapacityWithGW on a state with n layers, the given
+// groundwater level, field capacities and pore volumes and returns the field capacities afterwards.
+func VerifSetFieldCapacityWithGW(grw float64, n int, w, porges []float64) []float64 {
+	g := NewGlobalVarsMain()
+	g.GRW = grw
+	g.N = n
+	for i := 0; i < n && i < len(g.W); i++ {
+		g.W[i] = w[i]
+		g.PORGES[i] = porges[i]
+	}
+	setFieldCapacityWithGW(&g)
+	out := make([]float64, n)
+	for i := 0; i < n; i++ {
+		out[i] = g.W[i]
+	}
+	return out
+}
+
+// VerifHydroPaths gives a path set in which only the two hydraulic parameter tables are set.
+func VerifHydroPaths(hypar, parcap string) *HFilePath {
+	return &HFilePath{hypar: hypar, parcap: parcap}
+}
+
+// VerifHydroCell is what one call of Hydro leaves behind for one horizon.
+type VerifHydroCell struct {
+	FK, FELDW, LIM, PRGES, NORMFK, WRED, AD float64
+	Err                                     string
+}
+
+// VerifHydro calls Hydro for horizon `horizon` (1-based) of a profile that has `azho` horizons, all
+// with the given texture / density class / organic carbon / stone fraction, at groundwater level grw.
+func VerifHydro(session *HermesSession, hp *HFilePath, texture string, ld int, corg, stein, grw float64, horizon, azho, n int) VerifHydroCell {
+	g := NewGlobalVarsMain()
+	g.Session = session
+	g.AZHO = azho
+	g.N = n
+	g.GRW = grw
+	for i := 0; i < azho && i < len(g.BART); i++ {
+		g.BART[i] = texture
+		g.LD[i] = ld
+		g.CGEHALT[i] = corg
+		g.STEIN[i] = stein
+	}
+	var l InputSharedVars
+	ad, err := Hydro(horizon, &g, &l, hp)
+	hi := horizon - 1
+	c := VerifHydroCell{FK: l.FK[hi], FELDW: g.FELDW[hi], LIM: g.LIM[hi], PRGES: g.PRGES[hi], NORMFK: g.NORMFK[hi], WRED: g.WRED, AD: ad}
+	if err != nil {
+		c.Err = err.Error()
+	}
+	return c
+}
